@@ -214,7 +214,12 @@ structure Val where
   cells : Array Cell
   deriving Inhabited
 
-def evalUnary (op : String) (t : CType) : Option (CType × (Cell → Cell)) :=
+/-- Evaluation contexts used by the harness: "d" = default context, "m" = default plus the user functions
+myinc/mysub/myneg/myaddx, "o" = "m" with int "+" replaced by x + y + 1000. -/
+def ctxHasUser (ctx : String) : Bool := ctx == "m" || ctx == "o"
+
+def evalUnary (ctx : String) (op : String) (t : CType) : Option (CType × (Cell → Cell)) :=
+  if op.startsWith "my" && !ctxHasUser ctx then none else
   match fkind t, op with
   | .int, "abs" => some (.int, fun c => match c with | .int x => .int (wrap64 (if x < 0 then -x else x)) | y => y)
   | .int, "str" => some (.string, fun c => match c with | .int x => .str (some (intStr x)) | y => y)
@@ -230,7 +235,10 @@ def evalUnary (op : String) (t : CType) : Option (CType × (Cell → Cell)) :=
   | .string, "myaddx" => some (.string, fun c => match c with | .str (some s) => .str (some (s ++ [120])) | y => y)
   | _, _ => none
 
-def evalBinary (op : String) (t : CType) : Option (Cell → Cell → Cell) :=
+def evalBinary (ctx : String) (op : String) (t : CType) : Option (Cell → Cell → Cell) :=
+  if op.startsWith "my" && !ctxHasUser ctx then none else
+  if ctx == "o" && op == "+" && fkind t == .int then
+    some (fun a b => match a, b with | .int x, .int y => .int (wrap64 (wrap64 (x + y) + 1000)) | x, _ => x) else
   match fkind t, op with
   | .int, "+" => some (fun a b => match a, b with | .int x, .int y => .int (wrap64 (x + y)) | x, _ => x)
   | .int, "-" => some (fun a b => match a, b with | .int x, .int y => .int (wrap64 (x - y)) | x, _ => x)
@@ -250,37 +258,37 @@ def evalBinary (op : String) (t : CType) : Option (Cell → Cell → Cell) :=
 
 mutual
 /-- Denotation of an expression argument over a frame; `none` = error. -/
-def EArg.den (f : LFrame) : EArg → Option Val
+def EArg.den (ctx : String) (f : LFrame) : EArg → Option Val
   | .col n => (f.find? n).map (fun c => { ty := c.ty, vals := c.vals, strict := c.strict, cells := c.cells })
   | .val c => some { ty := cellType c, cells := (List.replicate f.n c).toArray }
   | .bad => none
-  | .x op args => denExpr f op args
+  | .x op args => denExpr ctx f op args
 /-- `Expr(op, a₀, …)`: one argument = unary, two = binary, more = left fold. -/
-def denExpr (f : LFrame) (op : String) : List EArg → Option Val
+def denExpr (ctx : String) (f : LFrame) (op : String) : List EArg → Option Val
   | [] => none
-  | [a] => match a.den f with
+  | [a] => match a.den ctx f with
     | none => none
-    | some v => match evalUnary op v.ty with
+    | some v => match evalUnary ctx op v.ty with
       | none => none
       | some (rt, g) => some { ty := rt, cells := v.cells.map g }
-  | a :: rest => match a.den f with
+  | a :: rest => match a.den ctx f with
     | none => none
-    | some v => denFold f op v rest
-def denFold (f : LFrame) (op : String) (acc : Val) : List EArg → Option Val
+    | some v => denFold ctx f op v rest
+def denFold (ctx : String) (f : LFrame) (op : String) (acc : Val) : List EArg → Option Val
   | [] => some acc
-  | b :: rest => match b.den f with
+  | b :: rest => match b.den ctx f with
     | none => none
     | some w =>
       if acc.ty != w.ty then none else
-      match evalBinary op acc.ty with
+      match evalBinary ctx op acc.ty with
       | none => none
       | some g =>
-        denFold f op { ty := fkind acc.ty, cells := (List.range f.n).map (fun r => g acc.cells[r]! w.cells[r]!) |>.toArray } rest
+        denFold ctx f op { ty := fkind acc.ty, cells := (List.range f.n).map (fun r => g acc.cells[r]! w.cells[r]!) |>.toArray } rest
 end
 
 /-- A malformed tree (bad argument, `Expr` without arguments) is an error even if never evaluated. -/
-def evalS (f : LFrame) (dst : Bytes) (e : EArg) : Res :=
-  match e.den f with
+def evalS (ctx : String) (f : LFrame) (dst : Bytes) (e : EArg) : Res :=
+  match e.den ctx f with
   | none => .err
   | some v =>
     match e with
@@ -505,7 +513,10 @@ def newS (cols : List NewCol) (order : List Bytes) (enums : List (Bytes × List 
         let lc : Option (LCol × List Bytes) :=
           if ty == .string then
             match enums.find? (·.1 == c.name) with
-            | some (_, decl) => (mkEnum decl cl).map (fun (vals, strict) =>
+            | some (_, decl) =>
+              -- a constant column registers its value even when it has no rows
+              let src := match c.kind with | .const _ => c.cells ++ cl | _ => cl
+              (mkEnum decl src).map (fun (vals, strict) =>
                 ({ name := c.name, ty := .enum, vals := vals, strict := strict, cells := cl.toArray }, c.name :: used))
             | none => some ({ name := c.name, ty := .string, cells := cl.toArray }, used)
           else some ({ name := c.name, ty := ty, cells := cl.toArray }, used)
